@@ -68,6 +68,62 @@ pub fn level_from_index(i: u32) -> LevelFilter {
 
 // ------------------------------------------------------------------ sockets
 
+/// pseudo socket index: the datagram is sent with UDP SOURCE PORT 0 through a raw socket. The server receives it like
+/// any other datagram, but its reply cannot be sent (sendto to port 0 fails with EINVAL): the one way to make a
+/// response send fail on loopback
+pub const PORT0: usize = usize::MAX - 1;
+
+/// a raw socket that sends UDP datagrams with source port 0
+pub struct Port0Sender {
+    fd: i32,
+}
+
+impl Port0Sender {
+    /// None if raw sockets are not available
+    pub fn new() -> Option<Port0Sender> {
+        let fd = unsafe { libc::socket(libc::AF_INET, libc::SOCK_RAW, libc::IPPROTO_UDP) };
+        if fd < 0 {
+            None
+        } else {
+            Some(Port0Sender { fd })
+        }
+    }
+    pub fn send(&self, dst: std::net::SocketAddr, payload: &[u8]) -> bool {
+        let v4 = match dst {
+            std::net::SocketAddr::V4(a) => a,
+            _ => return false,
+        };
+        if payload.len() + 8 > 65_507 {
+            return false;
+        }
+        let mut pkt = Vec::with_capacity(8 + payload.len());
+        pkt.extend_from_slice(&0u16.to_be_bytes());
+        pkt.extend_from_slice(&v4.port().to_be_bytes());
+        pkt.extend_from_slice(&((8 + payload.len()) as u16).to_be_bytes());
+        pkt.extend_from_slice(&0u16.to_be_bytes()); // no checksum (legal over IPv4)
+        pkt.extend_from_slice(payload);
+        let sa = libc::sockaddr_in { sin_family: libc::AF_INET as u16, sin_port: 0, sin_addr: libc::in_addr { s_addr: u32::from_ne_bytes(v4.ip().octets()) }, sin_zero: [0; 8] };
+        let n = unsafe { libc::sendto(self.fd, pkt.as_ptr() as *const libc::c_void, pkt.len(), 0, &sa as *const libc::sockaddr_in as *const libc::sockaddr, std::mem::size_of::<libc::sockaddr_in>() as u32) };
+        n == pkt.len() as isize
+    }
+}
+
+impl Drop for Port0Sender {
+    fn drop(&mut self) {
+        unsafe {
+            libc::close(self.fd);
+        }
+    }
+}
+
+/// false if raw sockets are not available (then the datagram never existed)
+pub fn send_from_port0(dst: std::net::SocketAddr, payload: &[u8]) -> bool {
+    match Port0Sender::new() {
+        Some(s) => s.send(dst, payload),
+        None => false,
+    }
+}
+
 fn set_rcvbuf(fd: i32, bytes: i32) {
     unsafe {
         let v: libc::c_int = bytes;
@@ -124,11 +180,13 @@ pub struct LabCfg {
     pub health_port: Option<u16>,
     /// serve on [::1] with IPv6 client sockets instead of 127.0.0.1
     pub ipv6: bool,
+    /// capacity of the statistics queue between worker and reporter (the server binary uses 2 x num_workers)
+    pub queue_cap: usize,
 }
 
 impl Default for LabCfg {
     fn default() -> Self {
-        LabCfg { seed: vec![7u8; 32], batch_size: 64, fault: 0, client_stats: false, status_interval: Duration::from_secs(600), health_port: None, ipv6: false }
+        LabCfg { seed: vec![7u8; 32], batch_size: 64, fault: 0, client_stats: false, status_interval: Duration::from_secs(600), health_port: None, ipv6: false, queue_cap: 64 }
     }
 }
 
@@ -171,6 +229,8 @@ pub struct StepResult {
     pub process_calls: u32,
     /// number of datagrams of this step the kernel accepted for sending (excluding the sentinel)
     pub sent_ok: usize,
+    /// how many of them went out with source port 0 (see PORT0)
+    pub port0_sent: usize,
 }
 
 impl Lab {
@@ -191,7 +251,7 @@ impl Lab {
             fault_percentage: cfg.fault,
             num_workers: 1,
         };
-        let queue = Arc::new(StatsQueue::new(64));
+        let queue = Arc::new(StatsQueue::new(cfg.queue_cap.max(1)));
         let q2 = queue.clone();
         let server = no_unwind(move || Box::new(Server::new(&mc, sock, q2))).map_err(|p| format!("Server::new panicked: {}", p))?;
         let key = RefKey::from_seed(&cfg.seed);
@@ -216,7 +276,7 @@ impl Lab {
         let pk = RefKey::from_seed(&seed).public();
         let srv = srv_value(&pk);
         let socks = (0..nsocks).map(|_| client_socket()).collect();
-        let cfg = LabCfg { seed, batch_size: config.batch_size(), fault: config.fault_percentage(), client_stats: config.client_stats_enabled(), status_interval: config.status_interval(), health_port: config.health_check_port(), ipv6: false };
+        let cfg = LabCfg { seed, batch_size: config.batch_size(), fault: config.fault_percentage(), client_stats: config.client_stats_enabled(), status_interval: config.status_interval(), health_port: config.health_check_port(), ipv6: false, queue_cap: 64 };
         Ok(Lab { server, events: mio::Events::with_capacity(1024), addr, pk, srv, socks, sentinel: client_socket(), queue, cfg, sentinel_ctr: 0, born: Instant::now(), patience: Duration::from_secs(5), force_sentinel: None })
     }
 
@@ -254,7 +314,15 @@ impl Lab {
     pub fn step(&mut self, sends: &[(usize, Vec<u8>)], expect_min: usize) -> Result<StepResult, StepErr> {
         let t0 = SystemTime::now();
         let mut sent_ok = 0;
+        let mut port0_sent = 0;
         for (s, d) in sends {
+            if *s == PORT0 {
+                if !self.cfg.ipv6 && send_from_port0(self.addr, d) {
+                    sent_ok += 1;
+                    port0_sent += 1;
+                }
+                continue;
+            }
             // a send error (e.g. EMSGSIZE) simply means the datagram never existed
             if self.socks[*s].send_to(d, self.addr).is_ok() {
                 sent_ok += 1;
@@ -299,13 +367,19 @@ impl Lab {
             Self::drain(s, &mut replies[i]);
         }
         Self::drain(&self.sentinel, &mut sentinel_replies);
-        Ok(StepResult { replies, sentinel_request: sreq, sentinel_proto: sproto, sentinel_replies, t0, t1, process_calls: calls, sent_ok })
+        Ok(StepResult { replies, sentinel_request: sreq, sentinel_proto: sproto, sentinel_replies, t0, t1, process_calls: calls, sent_ok, port0_sent })
     }
 
     /// send datagrams WITHOUT a sentinel and let the server process them (`calls` process_events calls;
     /// the last ones block for the 100 ms poll timeout). Replies are left in the client sockets.
     pub fn feed(&mut self, sends: &[(usize, Vec<u8>)], calls: u32) -> Result<(), String> {
         for (s, d) in sends {
+            if *s == PORT0 {
+                if !self.cfg.ipv6 {
+                    send_from_port0(self.addr, d);
+                }
+                continue;
+            }
             let _ = self.socks[*s].send_to(d, self.addr);
         }
         self.idle_pump(calls)
